@@ -81,8 +81,8 @@ def oracle(sc, res):
 def run(out, tier, rng, work):
     import items, scen, sprop
     out.rule = ('histories of up to 6 operations mixing failures (wrong key, refusal at the proceed callback, error response with defined and undefined error codes and EDCP 6/7, absent server) and successes on the same objects; oracle: nothing reaches the application and no data is served without the right key; every failure is raised to the caller naming the error code (timeout: "No response"); every well-formed operation after failures succeeds; non-trivial = the client finished at least one operation')
-    out.assumptions = ['A1-A6 of DESIGN.md section 3', 'the three DM14 state machines (query, server, facade) are not modelled in Coq: value conversion, frame layouts, guard and key gate are; transactions are run on the real code (testing)']
-    out.extra['partial'] = ['T18.3 (recovery as a theorem over the state machines) not proved: checked on the real code by the oracle']
+    out.assumptions = ['A1-A6 of DESIGN.md section 3', 'the serving side (DM14Server + serving half of MemoryAccess + the CA subscriber list) is modelled as a state machine (theories/Dm14Srv.v) and tied to the code by operation-sequence correspondence; the client (Dm14Query) and the transport under ca.send_pgn are not: transactions end to end are run on the real code (testing)']
+    out.extra['partial'] = ['T18.3 (recovery after a failed operation, on both sides) not proved: checked on the real code by the oracle; client-side exceptions naming the error code: item level + oracle; server side key gate proved for every state']
     C.std_proof_stage(out, 'C18', FILES)
     total, mism, errors = items.run_items(ITEMS, rng, 300 if tier == 'quick' else 3000, work, C)
     out.traces_validated = total
@@ -90,6 +90,8 @@ def run(out, tier, rng, work):
         out.broken.append('item correspondence %s did not evaluate: %s' % (e[0], e[1][-200:]))
     for m in mism[:20]:
         out.broken.append('correspondence %s: model and implementation differ on input %s (impl %s)' % (m[0], m[1][:14], m[2][:14]))
+    import dm14srv
+    dm14srv.stage(out, tier, rng, work, C)
     worst = {}
     runs = [(nm, sc) for nm, sc in sprop.load_corpus('C18')] + [('gen-%d' % k, gen(rng, k)) for k in range(120 if tier == 'quick' else 2500)]
     for nm, sc in runs:
